@@ -154,10 +154,10 @@ def run(ctx):
             case_targets = {}
             for n in ig.nodes:
                 for m, lab in n.succ:
-                    if lab is not None and lab.case is not None and lab.frame.id == 0 and n.block == bid:
+                    if lab is not None and lab.case is not None and lab.frame.owner_id == 0 and n.block == bid:
                         case_targets[str(lab.case)] = m
-            invs = [n for n in ig.ev_nodes() if n.id in live and is_task_invoke(n) and n.frame.id == 0]
-            rets = [n for n in ig.ev_nodes() if n.id in live and n.ev["e"] == "ret" and n.frame.id == 0]
+            invs = [n for n in ig.ev_nodes() if n.id in live and is_task_invoke(n) and n.frame.owner_id == 0]
+            rets = [n for n in ig.ev_nodes() if n.id in live and n.ev["e"] == "ret" and n.frame.owner_id == 0]
             ft = case_targets.get(vals.get("FUNCTION"))
             st = case_targets.get(vals.get("STOP"))
             ok = ft is not None and bool(invs)
@@ -179,7 +179,7 @@ def run(ctx):
                     not any(r.id in ig.reach([m], removed=[sw]) for m in nonstop for r in rets)
             ctx.ob("C07.R3c", inst, ok, fn.loc, "only a STOP marker may end the worker loop, and it must end it")
         pops = [n for n in ig.ev_nodes() if n.id in live and n.ev["e"] == "call" and
-                re.match(r"^babylon::ConcurrentBoundedQueue<.*>::(try_)?pop$", n.ev.get("callee", "") or "") and n.frame.id == 0]
+                re.match(r"^babylon::ConcurrentBoundedQueue<.*>::(try_)?pop$", n.ev.get("callee", "") or "") and n.frame.owner_id == 0]
         blocking = [p for p in pops if p.ev["name"] == "pop"]
         local = [p for p in pops if p.ev["name"] == "try_pop"]
         lids = set(p.id for p in local)
